@@ -13,11 +13,18 @@
   * `old_commit_spurious`             before the repair: a rollback mark above the start timestamp, data satisfying
                                       the condition ⇒ "condition failed"
   * `retry_bounded`, `retry_second_attempt_succeeds`, `commitRetry_agrees_with_sequential`
-  * residual, kept visible: `nine_abandoned_writers_still_spurious`
+  * `casFailed_only_if_condition_false` (ANY interference between the attempts), `condition_failed_never_reported_
+    if_conditions_hold_throughout`, `persistent_conflict_is_error_and_applies_nothing` - what /repo ce077f1 adds;
+    `nine_abandoned_writers_still_spurious_before_ce077f1` refutes the loop of 182e06c alone
 -/
 import KB.Lemmas.EngineTxn
 namespace KB.C11Conflict
 open KB KB.C11 KB.EngineTxn
+
+/-- an abandoned writer changes no data -/
+theorem abandon_data (q : Quirks) (s : TStore) (ops : List BOp) : (abandon q s ops).1.data = s.data := by
+  simp only [abandon]
+  split <;> rfl
 
 /-! ### (1) a rollback mark is not a change of the key -/
 
@@ -128,7 +135,7 @@ theorem old_commit_spurious :
     let t : Txn := { start := 3, snap := [([107], [1])] }
     let ops : List BOp := [.cas [107] [2] [1]]
     allHold s.data ops = true ∧ dataConflict s t ops = false ∧
-    (commitOnceAsResult Quirks.tikv s t ops).2 = .error CommitErr.casFailed ∧
+    (commitOnceAsResult Quirks.tikv s t ops).2 = .error (.cond CommitErr.casFailed) ∧
     (commitOnceAsResult Quirks.tikv s t ops).1.data = s.data ∧
     (commitRetry Quirks.tikv s t ops).2 = .ok ∧
     (commitRetry Quirks.tikv s t ops).1.data = [([107], [2])] := by
@@ -140,7 +147,10 @@ theorem old_commit_spurious :
 theorem retry_bounded (q : Quirks) (env : Env) (fuel : Nat) (s : TStore) (t : Txn) (ops : List BOp) :
     (commitLoop q env fuel s t ops).2.2 ≤ fuel + 1 := by
   induction fuel generalizing s t with
-  | zero => simp [commitLoop]
+  | zero =>
+    by_cases h : (commitOnce q s t ops).2 = .writeConflict
+    · rw [commitLoop_zero_conflict q env s t ops h]; exact Nat.le_refl 1
+    · rw [commitLoop_first_settles q env 0 s t ops h]; exact Nat.le_refl 1
   | succ n ih =>
     by_cases h : (commitOnce q s t ops).2 = .writeConflict
     · rw [commitLoop_succ_conflict q env n s t ops h]
@@ -154,22 +164,14 @@ theorem retry_terminates (q : Quirks) (env : Env) (s : TStore) (t : Txn) (ops : 
     (commitLoop q env maxConflictRetry s t ops).2.2 ≤ 9 :=
   retry_bounded q env maxConflictRetry s t ops
 
-/-- the loop answers "condition failed" (bare) only when EVERY one of its attempts met a write conflict -/
-theorem casFailed_only_after_all_attempts (q : Quirks) (env : Env) (fuel : Nat) (s : TStore) (t : Txn)
-    (ops : List BOp) (h : (commitLoop q env fuel s t ops).2.1 = .writeConflict) :
-    (commitLoop q env fuel s t ops).2.2 = fuel + 1 := by
-  induction fuel generalizing s t with
-  | zero => simp [commitLoop]
-  | succ n ih =>
-    by_cases hc : (commitOnce q s t ops).2 = .writeConflict
-    · rw [commitLoop_succ_conflict q env n s t ops hc] at h ⊢
-      simp only at h ⊢
-      rw [ih _ _ h]
-    · rw [commitLoop_succ_other q env n s t ops hc] at h
-      exact absurd h hc
+/-- the loop gives up (with an error) only when EVERY one of its attempts met a write conflict -/
+theorem persistent_conflict_only_after_all_attempts (q : Quirks) (env : Env) (fuel : Nat) (s : TStore) (t : Txn)
+    (ops : List BOp) (h : (commitLoop q env fuel s t ops).2.1 = .persistentConflict) :
+    (commitLoop q env fuel s t ops).2.2 = fuel + 1 :=
+  (commitLoop_persistent_inv q env ops (fun _ => True) (fun _ _ _ => trivial) fuel s t trivial h).1
 
 example : ∃ (env : Env) (s : TStore) (t : Txn) (ops : List BOp),
-    (commitLoop Quirks.tikv env 2 s t ops).2.1 = .writeConflict :=
+    (commitLoop Quirks.tikv env 2 s t ops).2.1 = .persistentConflict :=
   ⟨fun _ s => (abandon Quirks.tikv s [.put [107] [7]]).1,
    { data := [([107], [1])], writes := [([107], 1)], marks := [([107], 5)], clock := 5 },
    { start := 3, snap := [([107], [1])] }, [.cas [107] [2] [1]], by decide⟩
@@ -179,7 +181,8 @@ records the store carries and whether or not the conditions hold -/
 theorem retry_second_attempt_succeeds (q : Quirks) (s : TStore) (t : Txn) (ops : List BOp)
     (hwf : s.WF) (hstart : t.start ≤ s.clock) :
     (commitLoop q Env.idle maxConflictRetry s t ops).2.2 ≤ 2 ∧
-    (commitLoop q Env.idle maxConflictRetry s t ops).2.1 ≠ .writeConflict := by
+    (commitLoop q Env.idle maxConflictRetry s t ops).2.1 ≠ .writeConflict ∧
+    (commitLoop q Env.idle maxConflictRetry s t ops).2.1 ≠ .persistentConflict := by
   by_cases hc : (commitOnce q s t ops).2 = .writeConflict
   · -- the first attempt ran its steps successfully and met a conflict
     have hsnap : allHold t.snap ops = true := by
@@ -202,24 +205,135 @@ theorem retry_second_attempt_succeeds (q : Quirks) (s : TStore) (t : Txn) (ops :
       | ok d => rw [(fresh_attempt_ok q s1 hw1 ops ((commit_ok_iff q s1.data ops).1 ⟨d, hcm⟩)).1]; simp
     have h2 := key _ hwf' rfl
     rw [commitLoop_first_settles q _ 7 _ _ ops h2]
-    exact ⟨Nat.le_refl 2, h2⟩
+    exact ⟨Nat.le_refl 2, h2, commitOnce_ne_persistent q _ _ ops⟩
   · rw [commitLoop_first_settles q _ _ s t ops hc]
-    exact ⟨show 1 ≤ 2 by omega, hc⟩
+    exact ⟨show 1 ≤ 2 by omega, hc, commitOnce_ne_persistent q s t ops⟩
 
 example : ∃ (s : TStore) (t : Txn), s.WF ∧ t.start ≤ s.clock :=
   ⟨{ marks := [([107], 5)], clock := 5 }, { start := 3, snap := [] }, ⟨by decide, by decide⟩, by decide⟩
 
-/-- RESIDUAL (kept visible): the loop gives up after nine attempts and then still answers the bare "condition
-failed". Nine writers in a row that are abandoned on the same key, each between two attempts of this `Commit`,
-produce that answer although the key never changes. -/
-theorem nine_abandoned_writers_still_spurious :
+/-- The loop of /repo 182e06c ALONE (before ce077f1) gave up after nine attempts and then still answered the bare
+"condition failed": nine writers in a row that are abandoned on the same key, each between a re-begin and the
+prewrite of this `Commit`, produced that answer although the key never changes. -/
+theorem nine_abandoned_writers_still_spurious_before_ce077f1 :
+    let s : TStore := { data := [([107], [1])], writes := [([107], 1)], marks := [([107], 5)], clock := 5 }
+    let t : Txn := { start := 3, snap := [([107], [1])] }
+    let ops : List BOp := [.cas [107] [2] [1]]
+    let env : Env := fun _ s => (abandon Quirks.tikv s [.put [107] [7]]).1
+    let r := commitLoop182 Quirks.tikv env maxConflictRetry s t ops
+    allHold s.data ops = true ∧ r.2.1.asResult = .error (.cond CommitErr.casFailed) ∧ r.2.2 = 9 ∧ r.1.data = s.data := by
+  decide
+
+/-- … the same run now: an error, after nine attempts, nothing applied -/
+theorem nine_abandoned_writers_now_error :
     let s : TStore := { data := [([107], [1])], writes := [([107], 1)], marks := [([107], 5)], clock := 5 }
     let t : Txn := { start := 3, snap := [([107], [1])] }
     let ops : List BOp := [.cas [107] [2] [1]]
     let env : Env := fun _ s => (abandon Quirks.tikv s [.put [107] [7]]).1
     let r := commitLoop Quirks.tikv env maxConflictRetry s t ops
-    allHold s.data ops = true ∧ r.2.1.asResult = .error CommitErr.casFailed ∧ r.2.2 = 9 ∧ r.1.data = s.data := by
+    r.2.1.asResult = .error .other ∧ r.2.2 = 9 ∧ r.1.data = s.data := by
   decide
+
+/-- … and with eight of them the ninth attempt commits -/
+theorem eight_abandoned_writers_then_ok :
+    let s : TStore := { data := [([107], [1])], writes := [([107], 1)], marks := [([107], 5)], clock := 5 }
+    let t : Txn := { start := 3, snap := [([107], [1])] }
+    let ops : List BOp := [.cas [107] [2] [1]]
+    let env : Env := fun fuel s => if fuel = 0 then s else (abandon Quirks.tikv s [.put [107] [7]]).1
+    let r := commitLoop Quirks.tikv env maxConflictRetry s t ops
+    r.2.1 = .ok ∧ r.2.2 = 9 ∧ r.1.data = [([107], [2])] := by
+  decide
+
+/-! ### (4b) ANY interference between the attempts (/repo ce077f1) -/
+
+/-- `Commit` never hands out a bare write conflict: a failed condition it reports is the failed step of an attempt -/
+theorem loop_never_answers_writeConflict (q : Quirks) (env : Env) (fuel : Nat) (s : TStore) (t : Txn)
+    (ops : List BOp) : (commitLoop q env fuel s t ops).2.1 ≠ .writeConflict :=
+  commitLoop_ne_writeConflict q env ops fuel s t
+
+/-- Whatever the other clients do between the attempts (abandoned writers, real writers - `env` is arbitrary): if
+`Commit` answers a failed condition `e` (the bare `ErrCASFailed` or a `*storage.Conflict`), then `e` is the error the
+steps of the batch produce on the snapshot `snap` of the attempt that answered - some condition of the batch is
+FALSE on it. That snapshot is the caller's own one (first attempt) or the committed data at the moment the
+answering attempt began; it is a state the data really went through: it satisfies every predicate `P` that holds of
+the caller's snapshot and of the data when `Commit` was called and that every move of the others preserves. -/
+theorem casFailed_only_if_condition_false (q : Quirks) (env : Env) (fuel : Nat) (s : TStore) (t : Txn)
+    (ops : List BOp) (e : CommitErr) (P : Store → Prop)
+    (hsnap : P t.snap) (hdata : P s.data) (henv : ∀ n s', P s'.data → P (env n s').data)
+    (h : (commitLoop q env fuel s t ops).2.1.asResult = .error (.cond e)) :
+    ∃ snap, P snap ∧ commit q snap ops = .error e ∧ allHold snap ops = false := by
+  have hf : (commitLoop q env fuel s t ops).2.1 = .failed e := by
+    cases hr : (commitLoop q env fuel s t ops).2.1 with
+    | ok => rw [hr] at h; cases h
+    | failed e' =>
+      rw [hr] at h
+      simp only [TxnRes.asResult, Except.error.injEq, AdapterErr.cond.injEq] at h
+      rw [h]
+    | writeConflict => exact absurd hr (commitLoop_ne_writeConflict q env ops fuel s t)
+    | persistentConflict => rw [hr] at h; cases h
+  obtain ⟨snap, hp, hc⟩ := commitLoop_failed_inv q env ops P henv fuel s t e hsnap hdata hf
+  refine ⟨snap, hp, hc, ?_⟩
+  cases hh : allHold snap ops with
+  | false => rfl
+  | true => rw [commit_of_allHold q snap ops hh] at hc; cases hc
+
+/-- C01's last clause at the adapter: the conditions of the batch hold on the caller's snapshot, on the data when
+`Commit` is called, and no move of the other clients makes them false (abandoned writers never do; real writers
+that keep the conditions true do not either): `Commit` NEVER answers a failed condition - it answers `ok` or the
+error of a conflict that persisted. -/
+theorem condition_failed_never_reported_if_conditions_hold_throughout (q : Quirks) (env : Env) (fuel : Nat)
+    (s : TStore) (t : Txn) (ops : List BOp)
+    (hsnap : allHold t.snap ops = true) (hdata : allHold s.data ops = true)
+    (henv : ∀ n s', allHold s'.data ops = true → allHold (env n s').data ops = true) :
+    (commitLoop q env fuel s t ops).2.1 = .ok ∨ (commitLoop q env fuel s t ops).2.1 = .persistentConflict := by
+  cases hr : (commitLoop q env fuel s t ops).2.1 with
+  | ok => exact Or.inl rfl
+  | persistentConflict => exact Or.inr rfl
+  | writeConflict => exact absurd hr (commitLoop_ne_writeConflict q env ops fuel s t)
+  | failed e =>
+    obtain ⟨snap, hp, _, hfalse⟩ := casFailed_only_if_condition_false q env fuel s t ops e
+      (fun d => allHold d ops = true) hsnap hdata henv (by rw [hr]; rfl)
+    rw [hp] at hfalse; cases hfalse
+
+example : ∃ (env : Env) (s : TStore) (t : Txn) (ops : List BOp), allHold t.snap ops = true ∧
+    allHold s.data ops = true ∧ (∀ n s', allHold s'.data ops = true → allHold (env n s').data ops = true) :=
+  ⟨fun _ s => (abandon Quirks.tikv s [.put [107] [7]]).1,
+   { data := [([107], [1])], writes := [([107], 1)], marks := [([107], 5)], clock := 5 },
+   { start := 3, snap := [([107], [1])] }, [.cas [107] [2] [1]], by decide, by decide,
+   fun _ s' h => by rw [(abandon_data Quirks.tikv s' _)]; exact h⟩
+
+/-- a real writer in between: the hypothesis of `casFailed_only_if_condition_false` is met by a run that ends in a
+`*storage.Conflict`, and the condition IS false on the data of the answering attempt -/
+example :
+    let s : TStore := { data := [([107], [1])], writes := [([107], 1)], clock := 5 }
+    let t : Txn := { start := 3, snap := [([107], [1])] }
+    let ops : List BOp := [.cas [107] [2] [1]]
+    -- before the first re-run another client really commits [107] := [9]
+    let env : Env := fun _ s' => (commitOnce Quirks.tikv s'.begin.1 s'.begin.2 [.put [107] [9]]).1
+    (commitLoop Quirks.tikv env maxConflictRetry
+        { s with marks := [([107], 4)] } t ops).2.1.asResult = .error (.cond (.conflict (some 1) (some [9]))) := by
+  decide
+
+/-- Every attempt met a write conflict: the answer is an ERROR (not a failed condition), all `fuel + 1` attempts were
+made, and this `Commit` applied nothing - the data at the end are what the other clients made of them (every
+predicate that holds of the data at the start and that their moves preserve still holds; in particular the data are
+UNCHANGED when the others only abandon). -/
+theorem persistent_conflict_is_error_and_applies_nothing (q : Quirks) (env : Env) (fuel : Nat) (s : TStore) (t : Txn)
+    (ops : List BOp) (P : Store → Prop) (hdata : P s.data) (henv : ∀ n s', P s'.data → P (env n s').data)
+    (h : (commitLoop q env fuel s t ops).2.1 = .persistentConflict) :
+    (commitLoop q env fuel s t ops).2.1.asResult = .error .other ∧
+    (commitLoop q env fuel s t ops).2.2 = fuel + 1 ∧
+    P (commitLoop q env fuel s t ops).1.data := by
+  obtain ⟨hn, hp⟩ := commitLoop_persistent_inv q env ops P henv fuel s t hdata h
+  exact ⟨by rw [h]; rfl, hn, hp⟩
+
+/-- … the data are untouched when the others leave the data alone -/
+theorem persistent_conflict_keeps_data (q : Quirks) (env : Env) (fuel : Nat) (s : TStore) (t : Txn) (ops : List BOp)
+    (henv : ∀ n s', (env n s').data = s'.data)
+    (h : (commitLoop q env fuel s t ops).2.1 = .persistentConflict) :
+    (commitLoop q env fuel s t ops).1.data = s.data :=
+  (persistent_conflict_is_error_and_applies_nothing q env fuel s t ops (fun d => d = s.data) rfl
+    (fun n s' hs => by rw [henv n s', hs]) h).2.2
 
 /-! ### (5) the tie to the sequential engine model -/
 
@@ -227,7 +341,7 @@ theorem nine_abandoned_writers_still_spurious :
 same answer, the same data afterwards (nothing on failure). -/
 theorem commitRetry_agrees_with_sequential (q : Quirks) (s : TStore) (t : Txn) (ops : List BOp)
     (hsnap : t.snap = s.data) (hno : writeConflict s t ops = false) :
-    (commitRetry q s t ops).2.asResult = (commit q s.data ops).map (fun _ => ()) ∧
+    (commitRetry q s t ops).2.asResult = seqResult (commit q s.data ops) ∧
     (∀ d, commit q s.data ops = .ok d → (commitRetry q s t ops).1.data = d) ∧
     (∀ e, commit q s.data ops = .error e → (commitRetry q s t ops).1 = s) := by
   cases hcm : commit q s.data ops with
@@ -248,7 +362,7 @@ theorem commitRetry_agrees_with_sequential (q : Quirks) (s : TStore) (t : Txn) (
 data are still those of `KB.commit`. This is the statement that was false before the repair (`old_commit_spurious`). -/
 theorem commitRetry_refines_sequential (q : Quirks) (s : TStore) (t : Txn) (ops : List BOp)
     (hwf : s.WF) (hstart : t.start ≤ s.clock) (hsnap : t.snap = s.data) :
-    (commitRetry q s t ops).2.asResult = (commit q s.data ops).map (fun _ => ()) ∧
+    (commitRetry q s t ops).2.asResult = seqResult (commit q s.data ops) ∧
     (∀ d, commit q s.data ops = .ok d → (commitRetry q s t ops).1.data = d) ∧
     (∀ e, commit q s.data ops = .error e → (commitRetry q s t ops).1 = s) := by
   cases hcm : commit q s.data ops with
